@@ -404,6 +404,8 @@ def decide(pid, tier, seed, replay, t0):
         g = extract.main()
         import translate
         tr_status = translate.main()
+        import translate_obj
+        tr_status.update(translate_obj.main())
         mod = importlib.import_module("props." + pid.lower())
         prop_modules = [m for m in mod.LEAN_MODULES
                         if os.path.exists(os.path.join(LEAN, m.replace(".", "/") + ".lean"))]
